@@ -1,5 +1,6 @@
 import MgpuModel.Util
 import MgpuModel.Gen.Sites
+import MgpuModel.C05_Sched
 /-! # C05 — reproducibility: the places where Go map iteration order could leak into results
 
 `Gen.mapSites`, `Gen.clockSites`, `Gen.goSites` are REGENERATED from the simulator sources on
@@ -36,9 +37,70 @@ def insertKV (m : List (Nat × Nat)) (kv : Nat × Nat) : List (Nat × Nat) := m 
 def lookupLast (m : List (Nat × Nat)) (k : Nat) : Option Nat :=
   m.foldl (fun acc kv => if kv.1 == k then some kv.2 else acc) none
 
+/-! ## Every map-range site as a `LoopModel` (deepening)
+
+A `LoopModel` is the abstraction of one `for … := range m` loop TOGETHER with the statements that
+follow it up to the point where the iteration order is forgotten (the sort, the return of the
+built map, the lookup): `run c l` is what the code computes when the map's entries come out in
+the order `l`; `Valid c l` is what is known about the map's content (a Go map has pairwise
+distinct keys; the device table was filled by `RegisterDevice`; …). The models of the audited
+sites and their order-independence proofs are in `MgpuProofs/C05Sites.lean`. -/
+
+structure LoopModel where
+  /-- one entry of the map (key and value, or what the body uses of them) -/
+  Entry : Type
+  /-- everything else the loop reads -/
+  Ctx : Type
+  /-- what reaches the rest of the program -/
+  Out : Type
+  Valid : Ctx → List Entry → Prop
+  run : Ctx → List Entry → Out
+
+/-- the result is the same for every iteration order of the map -/
+def LoopModel.OrderIndependent (m : LoopModel) : Prop :=
+  ∀ c l₁ l₂, l₁.Perm l₂ → m.Valid c l₁ → m.run c l₁ = m.run c l₂
+
+/-- map lookup in an association list built by insertions, last insertion wins (any key type) -/
+def lookupLastG {κ ν : Type} [DecidableEq κ] (m : List (κ × ν)) (k : κ) : Option ν :=
+  m.foldl (fun acc kv => if kv.1 = k then some kv.2 else acc) none
+
+/-- `GetCPIStack` / `GetSIMDCPIStack`: `stack["total"] = total`, then one insertion per entry of
+    `timeStack` (in the order `es`), the value computed from that entry alone by `f` -/
+def cpiStackOf {ν ν' : Type} (f : ν → ν') (total : ν') (es : List (String × ν)) : List (String × ν') :=
+  ("total", total) :: es.map (fun e => (e.1, f e.2))
+
+/-- insertion sort of strings, the order `sort.Strings` produces -/
+def insertStr (x : String) : List String → List String
+  | [] => [x]
+  | y :: ys => if x ≤ y then x :: y :: ys else y :: insertStr x ys
+def sortStr (l : List String) : List String := l.foldr insertStr []
+
+/-- the keys of an association list, each once, first occurrence first (the key set of the map) -/
+def keysOf {ν : Type} (m : List (String × ν)) : List String := (m.map (·.1)).eraseDups
+
+/-- `reportCPIStackEntries` after `GetCPIStack`: the rows handed to the data recorder, in order.
+    `order` is the order in which the second loop (over the built map) yields the keys. -/
+def reportRows {ν : Type} (stack : List (String × ν)) (order : List String) : List (String × Option ν) :=
+  (sortStr order).map fun k => (k, lookupLastG stack k)
+
+/-- whole pipeline on IEEE doubles, as the code computes it:
+    `cycle := duration * freq; stack[k] = cycle / float64(instCount)` -/
+def cpiReport (totalTime freq : Float) (inst : Nat) (es : List (String × Float)) : List (String × Option Float) :=
+  let n := Float.ofNat inst
+  let stack := cpiStackOf (fun d => d * freq / n) (totalTime * freq / n) es
+  reportRows stack (keysOf stack)
+
 open Util
 
-def handle (line : String) : String :=
+def parseF64 (s : String) : Option Float := (hexNat? s).map fun n => Float.ofBits n.toUInt64
+def showF64 (f : Float) : String := toHexPad 16 f.toBits.toNat
+
+def parseEntry (w : String) : Option (String × Float) :=
+  match w.splitOn "=" with
+  | [k, v] => (parseF64 v).map fun f => (k, f)
+  | _ => none
+
+def handle1 (line : String) : String :=
   match words line with
   | ["c05", "devid", l2, sizes, p] =>
     match l2.toNat?, natList? sizes, p.toNat? with
@@ -50,5 +112,24 @@ def handle (line : String) : String :=
     | _, _, _ => "bad"
   | ["c05", "nsites"] => s!"{Gen.mapSites.length} {Gen.clockSites.length} {Gen.goSites.length}"
   | _ => "bad"
+
+def handle (line : String) : String :=
+  let segs := splitTrim line ";"
+  match segs with
+  | first :: rest =>
+    match words first with
+    | "c05" :: "tsched" :: t =>
+      match (kv? t "rounds").bind (natList? ·) with
+      | some rounds => joinWith " " (T.runTrace (T.init rounds) (rest.flatMap words) [])
+      | none => "bad"
+    | "c05" :: "cpistack" :: t =>
+      match (kv? t "total").bind parseF64, (kv? t "freq").bind parseF64, kvNat? t "inst",
+            (rest.flatMap words).mapM parseEntry with
+      | some total, some freq, some inst, some es =>
+        joinWith " " ((cpiReport total freq inst es).map fun r =>
+          r.1 ++ "=" ++ (match r.2 with | some v => showF64 v | none => "missing"))
+      | _, _, _, _ => "bad"
+    | _ => handle1 line
+  | [] => "bad"
 
 end C05
